@@ -157,6 +157,53 @@ def sequential(ctx):
         if box.get('first') != 'ok' or box.get('second') != 'refused':
             ctx.clause_fail('later_thread_refused', {'order': key, 'result': dict(box)},
                             detail='a second thread creating a store after the first thread was not refused')
+    # subclasses share the one process-wide record: whichever class creates the first store, every other thread is refused
+    class SubA(TrajectoryStore):
+        pass
+
+    class SubB(TrajectoryStore):
+        pass
+
+    for first_cls, second_cls in ((SubA, TrajectoryStore), (TrajectoryStore, SubA), (SubA, SubB), (SubA, SubA)):
+        for c in (TrajectoryStore, SubA, SubB):
+            if 'active_in_thread' in vars(c) and c is not TrajectoryStore:
+                delattr(c, 'active_in_thread')
+        TrajectoryStore.active_in_thread = None
+        box = {}
+        started, release = threading.Event(), threading.Event()
+
+        def make(cls, key, box=box):
+            try:
+                cls.create()
+                box[key] = 'ok'
+            except RuntimeError:
+                box[key] = 'refused'
+            except Exception as e:  # noqa: BLE001
+                box[key] = 'other:' + type(e).__name__
+
+        def owner(first_cls=first_cls):
+            make(first_cls, 'first')
+            started.set()
+            release.wait(10.0)
+
+        t1 = threading.Thread(target=owner)
+        t1.start()
+        started.wait(10.0)
+        t2 = threading.Thread(target=lambda: make(second_cls, 'second'))
+        t2.start()
+        t2.join()
+        release.set()
+        t1.join()
+        key = f'subclass:{first_cls.__name__}->{second_cls.__name__}'
+        out[key] = dict(box)
+        ctx.case('sequential:' + key, nontrivial=True, sample={'order': key, 'result': dict(box)})
+        if box.get('first') == 'ok' and box.get('second') != 'refused':
+            ctx.clause_fail('later_thread_refused', {'order': key, 'result': dict(box)},
+                            detail=f'first store created through {first_cls.__name__}; another thread creating one through '
+                                   f'{second_cls.__name__} was not refused')
+    for c in (SubA, SubB):
+        if 'active_in_thread' in vars(c):
+            delattr(c, 'active_in_thread')
     # a failing construction attempt by the owning thread (after it has created a store) must not release the claim
     import tempfile as _tf
     from pathlib import Path as _P
